@@ -10,6 +10,7 @@ import SodiumModel.Model.Scalar
 import SodiumModel.Model.Scalarmult
 import SodiumModel.Model.LadderRef10
 import SodiumModel.Model.Fe51
+import SodiumModel.Model.RistrettoRef10
 import SodiumModel.Model.Ge25519Ref10
 import SodiumModel.Model.Fe25
 import SodiumModel.Driver.C06
@@ -160,6 +161,17 @@ def coreAddSub (sub : Bool) (p q : Bytes) : Option Bytes :=
   let R := if sub then Model.Ge25519.ge25519_p3_sub G P.2 Q.2 else Model.Ge25519.ge25519_p3_add G P.2 Q.2
   some (Model.Ge25519.ge25519_p3_tobytes G R)
 
+/-- C07 maps: the `ri.*` and `ed.from_*` operations run the C-structured field-level model of
+    `Model/RistrettoRef10.lean` (ristretto255_frombytes / _p3_tobytes / _elligator / _from_hash,
+    ge25519_elligator2 / _mont_to_ed / _from_uniform / _from_hash and the core_ristretto255.c,
+    scalarmult_ristretto255_ref10.c wrappers) over the specification field; `abort()` prints "abort" -/
+def abortOr : Option (Int32 × Bytes) → String
+  | none => "abort"
+  | some r => rcBuf r
+
+/-- `ge25519_from_hash` of the C-structured model (`abort()` ↦ empty output, which the comparison flags) -/
+def edFromHash (h : Bytes) : Bytes := (RistrettoRef10.ed_from_hash h).getD []
+
 def h2cAlg (alg : String) : Int32 :=
   if alg = "256" then Model.Scalar.CORE_H2C_SHA256 else Model.Scalar.CORE_H2C_SHA512
 
@@ -200,28 +212,28 @@ def handle (op : String) (args : List String) : Option String :=
   | "sign.pk_to_curve", [pk] => do some (rcHex (Ed25519.pkToCurve25519 (← ofHex pk)))
   | "sign.sk_to_curve", [sk] => do some s!"0 {toHex (Ed25519.skToCurve25519 sha512 ((← ofHex sk).take 32))}"
   | "ed.valid", [p] => do some (toString (Model.Scalar.is_valid_point geRef (← ofHex p)).toInt)
-  | "ri.valid", [p] => do some (if Ristretto.isValidPoint (← ofHex p) then "1" else "0")
+  | "ri.valid", [p] => do some (toString (RistrettoRef10.ri_valid (← ofHex p)).toInt)
   | "ed.add", [p, q] => do some (rcHex (coreAddSub false (← ofHex p) (← ofHex q)))
   | "ed.sub", [p, q] => do some (rcHex (coreAddSub true (← ofHex p) (← ofHex q)))
-  | "ri.add", [p, q] => do some (rcHex (Ristretto.coreAdd (← ofHex p) (← ofHex q)))
-  | "ri.sub", [p, q] => do some (rcHex (Ristretto.coreSub (← ofHex p) (← ofHex q)))
+  | "ri.add", [p, q] => do some (rcBuf (RistrettoRef10.ri_add (← ofHex p) (← ofHex q)))
+  | "ri.sub", [p, q] => do some (rcBuf (RistrettoRef10.ri_sub (← ofHex p) (← ofHex q)))
   | "ed.scalarmult", [n, p] => do some (rcBuf (Model.Scalar.crypto_scalarmult_ed25519 geRef [] (← ofHex n) (← ofHex p)))
   | "ed.scalarmult_noclamp", [n, p] => do some (rcBuf (Model.Scalar.crypto_scalarmult_ed25519_noclamp geRef [] (← ofHex n) (← ofHex p)))
-  | "ri.scalarmult", [n, p] => do some (rcHex (Ristretto.scalarmult (← ofHex n) (← ofHex p)))
+  | "ri.scalarmult", [n, p] => do some (rcBuf (RistrettoRef10.ri_scalarmult (← ofHex n) (← ofHex p)))
   | "ed.base", [n] => do some (rcBuf (Model.Scalar.crypto_scalarmult_ed25519_base geRef (← ofHex n)))
   | "ed.base_noclamp", [n] => do some (rcBuf (Model.Scalar.crypto_scalarmult_ed25519_base_noclamp geRef (← ofHex n)))
-  | "ri.base", [n] => do some (rcHex (Ristretto.scalarmultBase (← ofHex n)))
-  | "ed.from_uniform", [r] => do some s!"0 {toHex (H2c.fromUniform (← ofHex r))}"
-  | "ri.from_hash", [h] => do some s!"0 {toHex (Ristretto.fromUniform (← ofHex h))}"
+  | "ri.base", [n] => do some (rcBuf (RistrettoRef10.ri_base (← ofHex n)))
+  | "ed.from_uniform", [r] => do some (abortOr (RistrettoRef10.ed_from_uniform (← ofHex r)))
+  | "ri.from_hash", [h] => do some (rcBuf (RistrettoRef10.crypto_core_ristretto255_from_hash RistrettoRef10.specOps RistrettoRef10.specGe (← ofHex h)))
   | "ed.from_string", [alg, ro, ctx, msg] => do
     let ctx ← if ctx = "N" then some [] else ofHex ctx
     let msg ← ofHex msg
-    some (rcBuf (if ro = "0" then Model.Scalar.from_string sha256 sha512 H2c.fromHash64 ctx msg (h2cAlg alg)
-      else Model.Scalar.from_string_ro sha256 sha512 H2c.fromHash64 (coreAddSub false) ctx msg (h2cAlg alg)))
+    some (rcBuf (if ro = "0" then Model.Scalar.from_string sha256 sha512 edFromHash ctx msg (h2cAlg alg)
+      else Model.Scalar.from_string_ro sha256 sha512 edFromHash (coreAddSub false) ctx msg (h2cAlg alg)))
   | "ri.from_string", [alg, _ro, ctx, msg] => do
     let ctx ← if ctx = "N" then some [] else ofHex ctx
     let msg ← ofHex msg
-    some (rcBuf (Model.Scalar.ristretto_from_string sha256 sha512 Ristretto.fromUniform ctx msg (h2cAlg alg)))
+    some (rcBuf (Model.Scalar.ristretto_from_string sha256 sha512 RistrettoRef10.ri_from_hash ctx msg (h2cAlg alg)))
   | "sc", [o, x] => do
     let x ← ofHex x
     match o with
